@@ -1,0 +1,18 @@
+//go:build verif
+// +build verif
+
+package verifclock
+
+import "time"
+
+// Offset, when set, is added to the real wall clock by Now (the simulator returns the skew of the node whose
+// call is in flight).
+var Offset func() time.Duration
+
+// Now is what the application's time.Now() calls resolve to in a verification build.
+func Now() time.Time {
+	if Offset != nil {
+		return time.Now().Add(Offset())
+	}
+	return time.Now()
+}
